@@ -191,6 +191,18 @@ CHECKS = {
             "evidence records whether the vector backend was live).",
             "TLA+ configuration-equivalence monitor checked by TLC over merged per-step observations from four builds",
             "5/C06"),
+    "C08": ("exploration",
+            "PARTIAL (source level only). Monitor specification ConstTime.tla (2-safety non-interference over observed runs): an "
+            "observation build - an AST rewriter applied through go -overlay, regenerated from the current tree on every run - reports every "
+            "non-constant index, slice bound and if/for/tagless-switch condition of 13 packages (769 sites); 36 secret-dependent operations "
+            "x 24 (quick) / 96 (thorough) secrets of one public shape on the purego, force32bit and default builds must each yield ONE "
+            "signature of the (site, value) stream; variable-time routines run as sensitivity controls and must yield several. A toy model "
+            "(MC_C08) states the intended control skeletons for all 8-bit secrets and its leaky variants are checked to fail.",
+            "NOT covered: assembly routines (window_amd64.s, field_u64_amd64.s, edwards_vector_amd64.s, keccakf_amd64.s), the standard "
+            "library, switch statements with a tag, variable-latency instructions, micro-architecture; secrets are sampled. Trusts TLC/SANY "
+            "and the rewriter.",
+            "TLA+ non-interference monitor checked by TLC over branch/index signatures from an AST-instrumented observation build",
+            "5/C08 and 9"),
 }
 
 NOT_YET = "check not built yet in this round (planned, see DESIGN.md section 11); not claimed until its machinery exists"
